@@ -1186,6 +1186,46 @@ def c31(run):
     count_nontrivial(run, t2, has_anon_conflict)
 
 
+CLI_TARGET = os.path.join(os.path.dirname(os.path.dirname(os.path.dirname(os.path.abspath(__file__)))), "harness", "target-cli")
+
+
+def c33(run):
+    run.cov["rule"] = ("JsonGen.tla enumerates 728 JSON objects: every scalar (null, booleans, 13 number tokens incl. i64 min/max, "
+                       "i64max+1, u64 max, 2^53+1, 1.5, 1e300, -0.0, 15.0, 1e-7; 7 string tokens incl. empty, non-BMP unicode, "
+                       "quotes/backslash, control characters) under each of 4 keys (empty, unicode, dotted), inside arrays, "
+                       "nested arrays/objects and multi-key objects; each is piped through the real binary: automerge import "
+                       "| Automerge::load + save | automerge export; the exported JSON must equal the input including the kind "
+                       "(i64 / u64 / f64) and bits of every number (Trace_Wire Cli); the CLI is rebuilt from /repo; "
+                       "non-trivial = values round-tripped")
+    from . import sh, tlc, BIN, build_harness
+    build_harness()
+    rc, out, dt = sh("cargo build --offline -p automerge-cli --target-dir %s 2>&1 | tail -3" % CLI_TARGET, timeout=3000,
+                     cwd="/repo/rust", env={"CARGO_NET_OFFLINE": "true"})
+    binp = os.path.join(CLI_TARGET, "debug", "automerge")
+    if "Finished" not in out or not os.path.exists(binp):
+        raise ToolError("building the CLI failed:\n" + out[-2000:])
+    r = tlc("JsonGen.tla", "SPECIFICATION Spec\nINVARIANT AllWellFormed\nCHECK_DEADLOCK FALSE\n", os.path.join(run.work, "jsongen"),
+            workers=1, timeout=600, deque=False)
+    import re
+    m = re.search(r'<<"REPLAY", "(.*)">>\s*$', r["out"], re.M)
+    if not m or "Error" in r["out"]:
+        raise ToolError("JsonGen.tla did not produce values:\n" + r["out"][-2000:])
+    vals = json.loads(json.loads('"' + m.group(1) + '"'))
+    if run.tier == "quick":
+        vals = vals[::2]
+    vp = os.path.join(run.work, "jsonvals.json")
+    json.dump(vals, open(vp, "w"))
+    run.add_states(r)
+    t = os.path.join(run.work, "cli.ndjson")
+    rc, out, dt = sh([os.path.join(BIN, "clix"), vp, binp, t], timeout=3000, ok_codes=None)
+    if rc != 0:
+        raise ToolError("clix failed:\n" + out[-2000:])
+    run.validate("Trace_Wire.tla", ["C33"], t, "cli")
+    run.cov["evaluations"] += len(vals)
+    run._nontrivial.update(("cli", i) for i in range(len(vals)))
+    run.sample([e for e in read_trace(t) if e.get('ev') == 'cli'][:3])
+
+
 def replay(run, path):
     """re-validate a recorded violating scenario"""
     from . import tlc_trace
@@ -1213,6 +1253,7 @@ REG = {
     "C30": ("model_checking", c30),
     "C34": ("model_checking", c34),
     "C32": ("model_checking", c32),
+    "C33": ("exploration", c33),
     "C31": ("model_checking", c31),
     "C27": ("model_checking", c27),
     "C15": ("fault_enumeration", c15),
